@@ -296,23 +296,38 @@ def run(ctx) -> None:
         rep.check("C11.R4", ok, f, t.ast, "class access returns the declaration itself", "class access does not return the declaration")
         acc_nodes = [x for acc_n, *_ in acc for x in cfg.nodes_containing(acc_n)]
         rep.check("C11.R4", all(cfg.dominates(t.id, x.id) for x in acc_nodes), f, t.ast, "the None test dominates every cache access", "the cache is touched before the instance-is-None test")
-    chk = sa.bound_check
-    # the check raises UnboundSignal exactly when the instance reference attribute is absent
-    ok_chk = False
-    for n in walk_own(chk.node):
-        if isinstance(n, ast.If):
-            txt = ast.unparse(n.test)
-            if sa.instance_attr in txt and ("hasattr" in txt or "getattr" in txt) and any(isinstance(b, ast.Raise) for b in n.body):
-                ok_chk = True
-    rep.check("C11.R4", ok_chk, chk, chk.node, f"bound-ness check raises UnboundSignal when {sa.instance_attr} is absent", "bound-ness check does not test the instance reference attribute")
+    # Bound-ness guard: `if not hasattr(<signal>, <instance attr>): raise UnboundSignal`, either
+    # inline in the function or in a helper it calls (a helper extracted for one caller has
+    # been inlined by the pre-pass; a shared one is still a call).
+    def inline_guards(fn: FuncInfo) -> list:
+        fcfg = a.cfg(fn)
+        out = []
+        for t in fcfg.live_nodes():
+            if t.kind != "test":
+                continue
+            txt = ast.unparse(t.ast)
+            if sa.instance_attr in txt and ("hasattr" in txt or "getattr" in txt):
+                e, lab = t.ast, "t"
+                while isinstance(e, ast.UnaryOp) and isinstance(e.op, ast.Not):
+                    e, lab = e.operand, ("f" if lab == "t" else "t")
+                # the raise sits on the side where the attribute is ABSENT
+                absent = "f" if lab == "t" else "t"
+                side = [d for d, l_ in t.succ if l_ == absent]
+                if side and isinstance(fcfg.nodes[side[0]].ast, ast.Raise) and "UnboundSignal" in ast.unparse(fcfg.nodes[side[0]].ast):
+                    out.append(t)
+        return out
+
+    helpers = [m for m in sa.Signal.methods.values() if inline_guards(m) and not a.func_mutations(m) and m.name not in ("dispatch",)]
+    helpers = [m for m in helpers if not any(isinstance(x, ast.Return) and x.value is not None for x in walk_own(m.node))]
+    any_guard = bool(helpers) or any(inline_guards(m) for m in sa.Signal.methods.values()) or bool(inline_guards(sa.subscribe))
+    rep.check("C11.R4", any_guard, sa.method("dispatch"), None, f"a bound-ness guard raises UnboundSignal when {sa.instance_attr} is absent", "nothing raises UnboundSignal for a signal that is not bound to an instance")
     for user in (sa.method("dispatch"), sa.subscribe):
         ucfg = a.cfg(user)
-        calls = [n for n in ucfg.live_nodes() if any(c.kind == "func" and c.func is chk for _, c in a.node_calls(user, ucfg, n))]
+        guards = [n for n in ucfg.live_nodes() if any(c.kind == "func" and c.func in helpers for _, c in a.node_calls(user, ucfg, n))] + inline_guards(user)
         effects = [n for n, m in a.func_mutations(user) if user is sa.method("dispatch") or m.path[-1] == sa.streams_attr]
-        ok = bool(calls) and all(ucfg.dominates(calls[0].id, e.id) for e in effects)
         sends = [n for n in ucfg.live_nodes() if any(call_name(cl) in ("send_nowait", "send") for cl, _ in a.node_calls(user, ucfg, n))]
-        ok = ok and all(ucfg.dominates(calls[0].id, s.id) for s in sends)
-        rep.check("C11.R4", ok, user, user.node, "bound-ness check dominates every effect", "an effect (subscription / delivery / stamping) is reachable without the bound-ness check")
+        ok = bool(guards) and all(any(ucfg.dominates(g.id, e.id) for g in guards) for e in effects + sends)
+        rep.check("C11.R4", ok, user, user.node, "the bound-ness guard dominates every effect", "an effect (subscription / delivery / stamping) is reachable without the bound-ness guard: using the signal through the class is not rejected with UnboundSignal")
     # the declaration object never gets the instance attribute
     bad = []
     for m in sa.Signal.methods.values():
